@@ -132,6 +132,8 @@ pub struct Ctx {
     pending: AtomicUsize,
     /// current pool maximum (changed by M<n>), the largest maximum in force so far, and whether the maximum is being lowered right now
     cur_max: AtomicUsize, max_ever: AtomicUsize, racy_max_change: AtomicBool,
+    /// resumers handed over to another caller (R<q>): object -> (resumer, suspend operation)
+    shared_resumers: StdMutex<std::collections::HashMap<usize, (desync::scheduler::QueueResumer, usize)>>,
     latch: rt::sync::Mutex<()>,
     latch_cv: rt::sync::Condvar,
     pub fail_fast: bool,
@@ -354,6 +356,14 @@ pub fn exec_op(ctx: &Arc<Ctx>, op: &Op, caller: usize, nested: bool, local: &mut
                 Err(_) => ctx.error("C13", format!("suspend {} was cancelled", oid)),
             }
             return exec_op(ctx, op, caller, nested, local);
+        }
+        Op::ResumeShared(q) => {
+            loop {
+                let got = ctx.shared_resumers.lock().unwrap().remove(q);
+                if let Some((r, o)) = got { let t = ctx.tick(); ctx.with_op(o, |x| x.end = t); desync::verif::log("api", "RESUME", 0, String::new()); r.resume(); break; }
+                rt::thread::yield_now();
+            }
+            return;
         }
         Op::Resume => { if let Some(r) = local.resumer.take() { let t = ctx.tick(); if let Some(o) = local.susp_op.take() { ctx.with_op(o, |x| x.end = t); } desync::verif::log("api", "RESUME", 0, String::new()); r.resume(); } return; }
         Op::DropResumer => { if let Some(r) = local.resumer.take() { let t = ctx.tick(); if let Some(o) = local.susp_op.take() { ctx.with_op(o, |x| x.end = t); } desync::verif::log("api", "RESUME", 1, String::new()); drop(r); } return; }
@@ -605,13 +615,18 @@ fn exec_op_q(ctx: &Arc<Ctx>, op: &Op, caller: usize, nested: bool, local: &mut L
             let fut = sch::future_desync(&qo.queue, move || { ns.0.take(); let d = d; run_body_async(c2, oid, body, unsafe { &mut *d.0 }, caller, true) });
             finish_future(ctx, oid, fut, mode, "C07");
         }
-        Op::Suspend(_) => {
+        Op::Suspend(_) | Op::SuspendHand(_) => {
             ctx.with_op(oid, |r| { r.accepted = true; });
             let fut = sch::scheduler().suspend(&qo.queue).boxed();
             let ret = ctx.tick();
             ctx.with_op(oid, |r| r.ret = ret);
             match block_on(fut, None).unwrap() {
-                Ok(res) => { let t = ctx.tick(); ctx.with_op(oid, |r| { r.start = t; r.runs = 1; }); local.resumer = Some(res); local.susp_op = Some(oid); }
+                Ok(res) => {
+                    let t = ctx.tick(); ctx.with_op(oid, |r| { r.start = t; r.runs = 1; });
+                    let q = op.obj().unwrap();
+                    let shared = matches!(op, Op::SuspendHand(_));
+                    if shared { ctx.shared_resumers.lock().unwrap().insert(q, (res, oid)); } else { local.resumer = Some(res); local.susp_op = Some(oid); }
+                }
                 Err(_) => ctx.error("C13", format!("suspend {} was cancelled", oid)),
             }
             return;
@@ -763,7 +778,7 @@ pub struct Outcome { pub ctx: Arc<Ctx> }
 pub fn make_ctx(prog: &Program, fail_fast: bool, touch_yield: bool) -> Arc<Ctx> {
     let clock = Arc::new(AtomicU64::new(0));
     let mons: Vec<Arc<ObjMon>> = (0..prog.nq).map(|id| Arc::new(ObjMon { id, occ: AtomicI64::new(0), dead: AtomicBool::new(false), drops: AtomicUsize::new(0), free_tick: AtomicU64::new(0), panicked: AtomicBool::new(false) })).collect();
-    let qmode = prog.callers.iter().flatten().any(|o| matches!(o, Op::Suspend(_) | Op::SuspendLazy(_)));
+    let qmode = prog.callers.iter().flatten().any(|o| matches!(o, Op::Suspend(_) | Op::SuspendLazy(_) | Op::SuspendHand(_) | Op::ResumeShared(_)));
     let objs = mons.iter().map(|m| StdMutex::new(if qmode { None } else { Some(Arc::new(Desync::new(Payload { mon: m.clone(), clock: clock.clone(), canary: 0xC0FFEE }))) })).collect();
     let qobjs = mons.iter().map(|m| StdMutex::new(if qmode { Some(Arc::new(QObj { queue: desync::scheduler::queue(), data: Box::into_raw(Box::new(Payload { mon: m.clone(), clock: clock.clone(), canary: 0xC0FFEE })) })) } else { None })).collect();
     Arc::new(Ctx {
@@ -772,7 +787,7 @@ pub fn make_ctx(prog: &Program, fail_fast: bool, touch_yield: bool) -> Arc<Ctx> 
         gates: (0..prog.ngates).map(|_| Gate { open: rt::sync::Mutex::new(false), cv: rt::sync::Condvar::new() }).collect(),
         streams: (0..prog.nstreams()).map(|_| Arc::new(StreamCore { st: StdMutex::new((Default::default(), false, None)), pushed: AtomicU64::new(0), released: AtomicBool::new(false), processed: StdMutex::new(vec![]), received: StdMutex::new(vec![]), ended_seen: AtomicBool::new(false), polls_after_gone: AtomicUsize::new(0), slow: StdMutex::new(Default::default()) })).collect(),
         clock, ops: StdMutex::new(vec![]), errors: StdMutex::new(vec![]),
-        pending: AtomicUsize::new(0), cur_max: AtomicUsize::new(prog.pool), max_ever: AtomicUsize::new(prog.pool), racy_max_change: AtomicBool::new(false), latch: rt::sync::Mutex::new(()), latch_cv: rt::sync::Condvar::new(), fail_fast, touch_yield,
+        pending: AtomicUsize::new(0), cur_max: AtomicUsize::new(prog.pool), max_ever: AtomicUsize::new(prog.pool), racy_max_change: AtomicBool::new(false), shared_resumers: StdMutex::new(Default::default()), latch: rt::sync::Mutex::new(()), latch_cv: rt::sync::Condvar::new(), fail_fast, touch_yield,
         threads: StdMutex::new(vec![None; prog.callers.len()]), in_try: StdMutex::new(Default::default()),
         panics_started: AtomicUsize::new(0), panics_caught: AtomicUsize::new(0), panic_base: desync::verif::thread::PANICKED_THREADS.load(SeqCst),
     })
